@@ -321,7 +321,7 @@ pub fn main(args: &Args) -> Report {
     let s = Scratch::new("c21");
     let mut prep = Prep::default();
     let mut out = CaseOut::default();
-    let n = if args.thorough() { 80_000 } else { 10_000 };
+    let n = if args.thorough() { 600_000 } else { 10_000 };
     let deadline = std::time::Instant::now() + std::time::Duration::from_secs(args.budget_s(90, 900));
     for k in 0..n {
         if std::time::Instant::now() > deadline {
